@@ -149,10 +149,12 @@ def gen_scenario(rng, quick):
     streams = rng.choice([1, 1, 1, 2, 3])
     events = rng.choice([1, 1, 2]) if streams > 1 else rng.choice([1, 2, 3])
     maxsteps = rng.choice([6, 12, 25]) if quick else rng.choice([10, 30, 60])
+    # slots == 1 with the action diagnostic is the known single-slot defect (dedicated probe)
+    adiag = rng.below(2) if slots != 1 else 0
     return ("run prob=%s slots=%d prims=%d seed=%d events=%d streams=%d order=%s maxsteps=%d "
             "warm=%d adiag=%d sdiag=%d cbs=%s" % (
                 prob, slots, min(prims, 40), rng.below(1 << 30), events, streams,
-                rng.choice(ORDERS), maxsteps, rng.below(2), rng.below(2),
+                rng.choice(ORDERS), maxsteps, rng.below(2), adiag,
                 rng.choice([0, 0, 1, 3, 8]), ";".join(gen_callbacks(rng, prob))))
 
 
@@ -365,8 +367,14 @@ def oracle(line, I, O):
                 got = [int(x) for x in w[1:]]
                 want = [acount.get((p, a), 0) for p in range(nptc) for a in range(nact)]
                 if got != want:
-                    bad.append((len(I) - 1, "action-diagnostic-counts", "totals differ from the "
-                                "number of valid steps per (particle, action)"))
+                    one = int(ck.get("slots", 0)) == 1
+                    bad.append((len(I) - 1, "action-diagnostic-skipped-single-slot" if one
+                                else "action-diagnostic-counts",
+                                f"ActionDiagnostic totals sum to {sum(got)} but {sum(want)} valid "
+                                "steps were taken (per (particle, action) counts differ)"
+                                + (" — with one track slot ActionSequence::step skips every "
+                                   "order-`post` action whose id is not the slot's post-step "
+                                   "action, so the diagnostic never runs" if one else "")))
             elif w[0] == "s":
                 got = [int(x) for x in w[1:]]
                 want = [scount.get((p, b), 0) for p in range(nptc) for b in range(sbins)]
@@ -374,6 +382,25 @@ def oracle(line, I, O):
                     bad.append((len(I) - 1, "step-diagnostic-counts", "totals differ from the "
                                 "number of killed tracks per (particle, step bin)"))
     return bad
+
+
+def single_slot_probe(ctx, exe, rng):
+    """ActionDiagnostic on a state with ONE track slot (host): ActionSequence::step's
+    skip_post_action skips it on every step."""
+    line = ("run prob=simple slots=1 prims=2 seed=%d events=1 streams=1 order=none maxsteps=8 "
+            "warm=0 adiag=1 sdiag=0 cbs=raw:1ffff:-:0" % rng.below(1 << 20))
+    I, O, _ = run_harness(exe, line)
+    for k, key, msg in oracle(line, I, O):
+        if key.startswith("action-diagnostic"):
+            ctx.violation(
+                "action-diagnostic-skipped-single-slot",
+                "ActionDiagnostic counts nothing when the state has a single track slot: " + msg,
+                {"harness": "harness/gather.cc", "ops": [line], "totals": O[-1] if O else "",
+                 "contradicts": "C17: action diagnostics equal the counts of delivered steps "
+                                "(Props/C17 action_diagnostic_single_slot_counts_nothing is the "
+                                "model-side witness)"})
+            break
+    return len(I)
 
 
 def own_volume_calo_probe(ctx, exe, rng):
@@ -499,6 +526,7 @@ def run(ctx):
                       {"harness": "harness/gather.cc", "ops": [line], "op_index": k,
                        "contradicts": "Props/C17 " + key})
     n_probe = own_volume_calo_probe(ctx, exe, ctx.rng)
+    n_probe += single_slot_probe(ctx, exe, ctx.rng)
 
     if broken and not ctx.violations:
         ctx.violation("unproved", "; ".join(broken)[:600],
